@@ -39,6 +39,8 @@ EXPLANATION = (
     "Does not decide the equality of concatenated request() results with run (counter arithmetic over histories), nor "
     "wall-clock bounds.")
 RULES = {
+    "C16-i": "ITERATOR: the Run element of FillRequest is run on iter(buffer)/chain/a wrapper, never on the buffer list itself",
+    "C16-h": "FORWARD: reset() of FillRequest / FillRequestSeq resets the wrapped element on every path, unconditionally",
     "C16-a": "SELF-FEED: no drain of a generator method into a container that this generator iterates",
     "C16-b": "PAIR drain=>clear: yielded buffers are emptied; buffer items filled into the element are removed from the buffer",
     "C16-c": "LAZY/bounded: the flow is consumed only through islice(flow, bufsize) (or next + islice(bufsize-1))",
@@ -853,7 +855,82 @@ def _deref_path(p, expr):
     return expr
 
 
+def check_reset_forwarded(ctx):
+    """reset() of the wrappers resets the wrapped element, whatever its own setting: FillRequest.reset -> self._el_reset(),
+    FillRequestSeq.reset -> self._fill_request.reset(), on every path, under no condition.  (An outer FillRequest(reset=True)
+    around a FillRequestSeq relies on it: the inner element's `_reset` says when *it* resets between its own blocks, not
+    whether it may be reset.)"""
+    for mod, qual, callee in (("lena.core.adapters", "FillRequest.reset", "self._el_reset"),
+                              ("lena.core.fill_request_seq", "FillRequestSeq.reset", "self._fill_request.reset")):
+        fn = ctx.tree.func(mod, qual)
+        n = 0
+        for p in P.paths_of(fn):
+            if p.end == "raise":
+                ctx.violation("C16-h", fn, "%s raises on path [%s] instead of resetting the element" % (qual, p.describe()),
+                              construct="reset-raises:%s" % qual, path=p)
+                continue
+            n += 1
+            calls = [c for _, c in p.calls() if A.src(c.func) == callee and not c.args and not c.keywords]
+            ctx.check("C16-h", len(calls) == 1, fn, "%s does not call %s() on path [%s]: the wrapped element keeps its state where the "
+                      "caller asked for a reset (results of later blocks become cumulative)" % (qual, callee, p.describe()),
+                      detail="%s forwards to %s() on path [%s]" % (qual, callee, p.describe(2)), construct="reset-forward:%s" % qual, path=p)
+        ctx.instances_floor("C16-h/" + qual, n, 1, "normal paths of %s" % qual)
+
+
+def check_run_gets_iterator(ctx):
+    """The Run element of FillRequest is a user element: like every element behind Sequence.run it may rely on its flow being
+    an iterator (take some values with next()/islice, then continue with a for loop -- Slice with negative indices does).
+    _run_run therefore hands it iter(buffer), chain(...), or a wrapper object -- never the buffer list itself, on which the
+    second loop would start from the beginning again."""
+    res = ctx.res
+    fn = ctx.tree.func("lena.core.adapters", "FillRequest._run_run")
+    aliases = {a.targets[0].id for a in A.walk_local(fn) if isinstance(a, ast.Assign) and len(a.targets) == 1
+               and isinstance(a.targets[0], ast.Name) and A.src(a.value) in ("self._el.run", "self._el_run")}
+    n = 0
+    for c in A.walk_local(fn):
+        if not isinstance(c, ast.Call) or len(c.args) != 1:
+            continue
+        if not ((isinstance(c.func, ast.Name) and c.func.id in aliases) or A.src(c.func) in ("self._el.run", "self._el_run")):
+            continue
+        n += 1
+        arg = c.args[0]
+        defs = [arg]
+        if isinstance(arg, ast.Name):
+            defs = [a.value for a in A.walk_local(fn) if isinstance(a, ast.Assign) and any(arg.id in A.target_names(t) for t in a.targets)]
+            if not defs:
+                ctx.unknown("C16-i", c, "the flow handed to the element, `%s`, is not bound by an assignment of _run_run" % arg.id)
+                continue
+        bad = None
+        for d in defs:
+            if isinstance(d, (ast.List, ast.ListComp, ast.Tuple, ast.Set, ast.Dict, ast.DictComp, ast.SetComp)):
+                bad = d
+            elif isinstance(d, ast.Call) and res.call_canon(d) in ("builtins.list", "builtins.tuple", "builtins.sorted", "collections.deque",
+                                                                    "builtins.set", "builtins.dict"):
+                bad = d
+            elif isinstance(d, ast.Call):
+                canon = res.call_canon(d) or ""
+                known = canon in ("builtins.iter", "itertools.chain", "itertools.islice", "lena.core.functions.flow_to_iter") or \
+                    (isinstance(d.func, ast.Name) and any(isinstance(k, ast.ClassDef) and k.name == d.func.id for k in ast.walk(fn)))
+                if not known:
+                    ctx.unknown("C16-i", c, "the element is run on `%s`; the rule does not know whether that is an iterator" % A.short(d, 50))
+                    bad = False
+            elif isinstance(d, ast.GeneratorExp):
+                pass
+            else:
+                ctx.unknown("C16-i", c, "the element is run on `%s`; the rule does not know whether that is an iterator" % A.short(d, 50))
+                bad = False
+        if bad is False:
+            continue
+        ctx.check("C16-i", bad is None, c, "FillRequest._run_run runs the element on the container `%s` itself, not on an iterator over it: "
+                  "an element that takes some values and then continues with a loop (Slice with a negative index) starts from the "
+                  "beginning again and yields values twice" % (A.short(bad, 50) if bad is not None else ""),
+                  detail="element run on an iterator: %s" % A.short(arg, 50), construct="run-arg:%s" % A.short(arg, 60))
+    ctx.instances_floor("C16-i", n, 3, "calls of the element's run in FillRequest._run_run")
+
+
 def check(ctx):
+    check_reset_forwarded(ctx)
+    check_run_gets_iterator(ctx)
     K.check_flow_to_iter(ctx, "C16-c", "FillRequest._run_fill_compute / _run_run take the flow block by block with islice(flow, bufsize) and "
                          "next(flow): on a re-iterable every islice starts from the beginning again, the first block is processed for ever "
                          "and later values are never reached")
@@ -868,6 +945,9 @@ def check(ctx):
 ADPF = "lena/core/adapters.py"
 FRSF = "lena/core/fill_request_seq.py"
 VARIANTS = [
+    M("rr-run-on-list", "lena/core/adapters.py", "                for val in el_run(iter(buffer)):", "                for val in el_run(buffer):", ["C16-i"]),
+    M("frs-reset-conditional", "lena/core/fill_request_seq.py", "        self._fill_request.reset()", "        if self._reset:\n            self._fill_request.reset()", ["C16-h"]),
+    M("fr-reset-dropped", "lena/core/adapters.py", "        \"\"\"Reset *el* (ignoring the initialization setting).\"\"\"\n        self._el_reset()", "        \"\"\"Reset *el* (ignoring the initialization setting).\"\"\"\n        pass", ["C16-h"]),
     # bounded consumption
     M("fc-unbounded-slice", ADPF, "            slice_ = itertools.islice(flow, self.bufsize)", "            slice_ = iter(flow)", ["C16-c"]),
     M("rr-list-flow", ADPF, "                buffer = list(islice(flow, bufsize))", "                buffer = list(flow)", ["C16-c"]),
